@@ -200,3 +200,184 @@ def own_slices(q, rng, prob=1.0):
     for b in bound[-10:]:
         p.add('obs %s' % b)
     return p
+
+
+# ---------------------------------------------------------------------------------------------------------------------
+# operand provenance: the same values, reached through other constructors and operations, with read-only calls between
+
+def _parse_lit(lit):
+    """nested bracket literal of float bit patterns -> (shape, flat list of tokens) or None when ragged / empty"""
+    pos = [0]
+    def rec():
+        if lit[pos[0]] == '[':
+            pos[0] += 1
+            items = []
+            if lit[pos[0]] == ']':
+                pos[0] += 1
+                return None
+            while True:
+                it = rec()
+                if it is None:
+                    return None
+                items.append(it)
+                if lit[pos[0]] == ',':
+                    pos[0] += 1; continue
+                if lit[pos[0]] == ']':
+                    pos[0] += 1; break
+                return None
+            sh = items[0][0]
+            if any(i[0] != sh for i in items):
+                return None
+            flat = []
+            for i in items: flat += i[1]
+            return ([len(items)] + sh, flat)
+        j = pos[0]
+        while j < len(lit) and lit[j] not in ',]':
+            j += 1
+        tok = lit[pos[0]:j]; pos[0] = j
+        if not tok.isdigit():
+            return None
+        return ([], [tok])
+    try:
+        r = rec()
+    except IndexError:
+        return None
+    if r is None or pos[0] != len(lit):
+        return None
+    return r
+
+def _lit(shape, toks):
+    if not shape:
+        return toks[0]
+    n = prod(shape[1:])
+    return '[' + ','.join(_lit(shape[1:], toks[i * n:(i + 1) * n]) for i in range(shape[0])) + ']'
+
+_POKES = ['sum %s', 'mean %s', 'max %s', 'min %s', 'var %s', 'std %s', 'avg %s', 'nelems %s', 'equals %s %s']
+
+def provenance(q, rng, prob=0.7):
+    """Rewrite program `q`: every rectangular `tensorof` leaf is built another way that yields the same tensor — a constant
+    tensor (Full / Zeros / Ones) patched with the data, a slice of a larger tensor, a concatenation of two parts, a reshape
+    of the flat data, a transpose of the transposed data, a broadcast-free chain of these — and read-only calls (whole-
+    tensor reducers, NElems, Equals, Shape) are made on the intermediate tensors and on the leaf before it is used. The
+    leaf is reset to the tracking the program asked for, so it is a fresh leaf as before. A library that keeps per-tensor
+    state which one of these operations forgets to invalidate or copies wrongly (a memo, a flag, a shared buffer) then
+    computes the rest of the program from wrong values."""
+    p = Prog(q.name + '_prov', **q.opts)
+    p.tags = set(q.tags) | {'operand-provenance'}
+    k = [0]
+    def tmp():
+        k[0] += 1
+        return 'pv%d' % k[0]
+    def poke(t):
+        for _ in range(rng.randint(0, 2)):
+            c = rng.choice(_POKES)
+            p.add(c % ((t, t) if c.count('%s') == 2 else t))
+    for ln in q.lines:
+        toks = ln.split(' ')
+        if not (len(toks) == 6 and toks[1] == '=' and toks[2] == 'tensorof' and toks[3] in ('T', 'U') and toks[4].isdigit()
+                and int(toks[4]) >= 1 and rng.random() < prob):
+            p.add(ln); continue
+        name, conf, depth, lit = toks[0], toks[3], int(toks[4]), toks[5]
+        parsed = _parse_lit(lit)
+        if parsed is None or len(parsed[0]) != depth or prod(parsed[0]) == 0 or prod(parsed[0]) > 400:
+            p.add(ln); continue
+        shape, vals = parsed
+        rank = len(shape)
+        routes = ['const-patch', 'slice-of-larger', 'reshape-flat']
+        if shape[0] >= 2: routes.append('concat')
+        if rank >= 2: routes += ['transpose', 'const-patch-part']
+        route = rng.choice(routes)
+        whole = ','.join('0:%d' % d for d in shape)
+        if route == 'const-patch':
+            base = tmp()
+            ctor = rng.choice(['zeros U %s' % ints(shape), 'ones U %s' % ints(shape), 'full U %s %s' % (ints(shape), vals[0])])
+            p.add('%s = %s' % (base, ctor)); poke(base)
+            src = tmp(); p.add('%s = tensorof U %d %s' % (src, depth, lit))
+            idx = rng.choice([whole, '-', ','.join('0:0' for _ in shape), whole])
+            p.add('%s = patch %s %s %s' % (name, base, idx, src))
+        elif route == 'const-patch-part':
+            # a constant tensor holding the first row's first value, patched with everything but keep rows [0,k) from a tensorof
+            n0 = prod(shape[1:])
+            kk = rng.randint(1, shape[0] - 1) if shape[0] >= 2 else 0
+            base = tmp(); p.add('%s = tensorof U %d %s' % (base, depth, _lit(shape, vals[:kk * n0] + [vals[0]] * ((shape[0] - kk) * n0)))); poke(base)
+            if kk < shape[0]:
+                src = tmp(); p.add('%s = tensorof U %d %s' % (src, depth, _lit([shape[0] - kk] + shape[1:], vals[kk * n0:])))
+                idx = '%d:%d' % (kk, shape[0]) + ''.join(',0:%d' % d for d in shape[1:])
+                p.add('%s = patch %s %s %s' % (name, base, idx, src))
+            else:
+                p.add('%s = slice %s %s' % (name, base, whole))
+        elif route == 'slice-of-larger':
+            n0 = prod(shape[1:])
+            extra = rng.randint(1, 2)
+            front = rng.random() < 0.5
+            pad = [vals[(7 * i) % len(vals)] for i in range(extra * n0)]
+            big = tmp()
+            data = (pad + vals) if front else (vals + pad)
+            p.add('%s = tensorof U %d %s' % (big, depth, _lit([shape[0] + extra] + shape[1:], data))); poke(big)
+            a = extra if front else 0
+            idx = '%d:%d' % (a, a + shape[0])
+            if rng.random() < 0.5: idx += ''.join(',0:%d' % d for d in shape[1:])
+            p.add('%s = slice %s %s' % (name, big, idx))
+        elif route == 'concat':
+            n0 = prod(shape[1:]); kk = rng.randint(1, shape[0] - 1)
+            a, b = tmp(), tmp()
+            p.add('%s = tensorof U %d %s' % (a, depth, _lit([kk] + shape[1:], vals[:kk * n0])))
+            p.add('%s = tensorof U %d %s' % (b, depth, _lit([shape[0] - kk] + shape[1:], vals[kk * n0:])))
+            poke(a)
+            p.add('%s = concat %s,%s 0' % (name, a, b))
+        elif route == 'reshape-flat':
+            flat = tmp(); p.add('%s = tensorof U 1 %s' % (flat, _lit([len(vals)], vals))); poke(flat)
+            p.add('%s = reshape %s %s' % (name, flat, ints(shape)))
+        else:  # transpose
+            r, c = shape[-2], shape[-1]
+            nb = prod(shape[:-2])
+            tv = []
+            for bi in range(nb):
+                blk = vals[bi * r * c:(bi + 1) * r * c]
+                for j in range(c):
+                    for i in range(r):
+                        tv.append(blk[i * c + j])
+            tt = tmp(); p.add('%s = tensorof U %d %s' % (tt, depth, _lit(shape[:-2] + [c, r], tv))); poke(tt)
+            p.add('%s = transpose %s' % (name, tt))
+        poke(name)
+        p.add('reset %s %d' % (name, 1 if conf == 'T' else 0))
+        if rng.random() < 0.5:
+            p.add('obs %s' % name)
+    return p
+
+
+# ---------------------------------------------------------------------------------------------------------------------
+# foreign tensor implementations
+
+_NO_FOREIGN = ('setptr', 'input', 'wrap', 'tensors', 'settensor')
+
+def foreign(q, rng, p_wrap=0.5, p_use=0.2):
+    """Rewrite program `q`: some tensors get a wrapper `w = wrap t` (a caller's own struct embedding the library tensor, i.e.
+    a `tensor.Tensor` that is not the library's implementation) and later uses of `t` are replaced by `w` here and there.
+    As a receiver the wrapper IS the tensor; as an argument every entry point must reject it with an error and change
+    nothing (PROTOCOL.md, `wrap`)."""
+    p = Prog(q.name + '_frn', **q.opts)
+    p.tags = set(q.tags) | {'foreign-tensor'}
+    wrapped = {}
+    used = 0
+    for ln in q.lines:
+        toks = ln.split(' ')
+        has_dst = len(toks) > 2 and toks[1] == '='
+        cmd = toks[2] if has_dst else toks[0]
+        start = 3 if has_dst else 1
+        if cmd not in _NO_FOREIGN:
+            for i in range(start, len(toks)):
+                if toks[i] in wrapped and rng.random() < p_use:
+                    toks[i] = wrapped[toks[i]]; used += 1
+                elif ',' in toks[i] and cmd == 'concat':
+                    parts = toks[i].split(',')
+                    toks[i] = ','.join(wrapped[x] if x in wrapped and rng.random() < p_use else x for x in parts)
+        p.add(' '.join(toks))
+        if has_dst and (cmd in ('tensorof', 'full', 'zeros', 'ones', 'reshape', 'slice', 'patch', 'concat', 'transpose', 'deref')
+                        or cmd in ('add', 'mul', 'sub', 'scale', 'exp', 'sin', 'tanh', 'fwd', 'loss')) and rng.random() < p_wrap:
+            w = 'w_' + toks[0]
+            p.add('%s = wrap %s' % (w, toks[0]))
+            wrapped[toks[0]] = w
+            if toks[0] in wrapped.values():
+                pass
+    return p if used else None
